@@ -50,6 +50,17 @@ static int xdh_custom(unsigned char *output, const unsigned char *x32, const uns
     (void)data; memcpy(output, x32, 32); output[1] ^= a64[0] ^ b64[0]; return 1;
 }
 
+/* caller-supplied nonce functions whose FIRST candidate is unusable (zero / not below the group order), so that the signing
+ * loop's retry path runs; later candidates are the library's own derivation from the (secret) key */
+static int nonce_retry_zero(unsigned char *nonce32, const unsigned char *msg32, const unsigned char *key32, const unsigned char *algo16, void *data, unsigned int attempt) {
+    if (attempt == 0) { memset(nonce32, 0, 32); return 1; }
+    return secp256k1_nonce_function_rfc6979(nonce32, msg32, key32, algo16, data, attempt);
+}
+static int nonce_retry_ff(unsigned char *nonce32, const unsigned char *msg32, const unsigned char *key32, const unsigned char *algo16, void *data, unsigned int attempt) {
+    if (attempt < 2) { memset(nonce32, 0xFF, 32); return 1; }
+    return secp256k1_nonce_function_rfc6979(nonce32, msg32, key32, algo16, data, attempt);
+}
+
 int main(int argc, char **argv) {
     secp256k1_context *ctxs[4];
     unsigned char key[32], key2[32], msg[32], tw[32], aux[32], out64[64], out32[32];
@@ -79,14 +90,15 @@ int main(int argc, char **argv) {
     }
     /* ---- 5: ecdsa_sign, 6: ecdsa_sign_recoverable : ctx x noncefp {NULL, rfc6979} x noncedata {NULL, secret} x secret ---- */
     cfg = 0;
-    for (ck = 0; ck < 4; ck++) for (i = 0; i < 4; i++) for (sv = 0; sv < 2; sv++, cfg++) {
+    for (ck = 0; ck < 4; ck++) for (i = 0; i < 8; i++) for (sv = 0; sv < 2; sv++, cfg++) {
         secp256k1_ecdsa_signature sig; secp256k1_ecdsa_recoverable_signature rsig;
-        secp256k1_nonce_function nf = (i & 1) ? secp256k1_nonce_function_rfc6979 : NULL;
-        snprintf(desc, sizeof(desc), "ctx=%s noncefp=%s noncedata=%s secret=%d", ctxname[ck], (i & 1) ? "rfc6979" : "NULL", (i & 2) ? "secret" : "NULL", sv);
+        secp256k1_nonce_function nf = i >= 6 ? nonce_retry_ff : i >= 4 ? nonce_retry_zero : (i & 1) ? secp256k1_nonce_function_rfc6979 : NULL;
+        if (i >= 4 && ck >= 2) continue;
+        snprintf(desc, sizeof(desc), "ctx=%s noncefp=%s noncedata=%s secret=%d", ctxname[ck], i >= 6 ? "custom(first two candidates >= n, then rfc6979)" : i >= 4 ? "custom(first candidate zero, then rfc6979)" : (i & 1) ? "rfc6979" : "NULL", (i & (i >= 4 ? 1 : 2)) ? "secret" : "NULL", sv);
         if (begin_case(5, cfg)) { fill(key, 32, sv, 0); fill(aux, 32, sv, 9); UNDEF(key, 32); UNDEF(aux, 32);
-            r = secp256k1_ecdsa_sign(ctxs[ck], &sig, msg, key, nf, (i & 2) ? aux : NULL); DEF(&sig, sizeof(sig)); end_case("ecdsa_sign", desc, r); }
+            r = secp256k1_ecdsa_sign(ctxs[ck], &sig, msg, key, nf, (i & (i >= 4 ? 1 : 2)) ? aux : NULL); DEF(&sig, sizeof(sig)); end_case("ecdsa_sign", desc, r); }
         if (begin_case(6, cfg)) { fill(key, 32, sv, 0); fill(aux, 32, sv, 9); UNDEF(key, 32); UNDEF(aux, 32);
-            r = secp256k1_ecdsa_sign_recoverable(ctxs[ck], &rsig, msg, key, nf, (i & 2) ? aux : NULL); DEF(&rsig, sizeof(rsig)); end_case("ecdsa_sign_recoverable", desc, r); }
+            r = secp256k1_ecdsa_sign_recoverable(ctxs[ck], &rsig, msg, key, nf, (i & (i >= 4 ? 1 : 2)) ? aux : NULL); DEF(&rsig, sizeof(rsig)); end_case("ecdsa_sign_recoverable", desc, r); }
     }
     /* ---- 7: ecdh : ctx{0,1} x hashfp {NULL, sha256, custom} x secret ---- */
     cfg = 0;
